@@ -97,7 +97,7 @@ func init() {
 					for k := 0; k < *opsPer; k++ {
 						n := nodes[rng.Intn(len(nodes))]
 						typ := []string{"a", "b"}[rng.Intn(2)]
-						switch x := rng.Intn(10); {
+						switch x := rng.Intn(11); {
 						case x < 4: // node point write
 							ts := int(tsCounter.Add(1))
 							id := identOf(n, typ, false)
@@ -133,6 +133,10 @@ func init() {
 								}
 							}
 							logEv(map[string]any{"ev": "Ret", "c": cname, "op": k, "ok": err == nil && len(ns) == 1, "res": r, "err": fmt.Sprint(err)})
+						case x == 10: // maintenance request (verification that repairs), served by another subscription
+							logEv(map[string]any{"ev": "Call", "c": cname, "op": k, "kind": "verify", "id": "", "ts": 0})
+							err := client.AdminStoreMaint(nc)
+							logEv(map[string]any{"ev": "Ret", "c": cname, "op": k, "ok": err == nil, "res": map[string]int{}, "err": fmt.Sprint(err)})
 						default: // verification request
 							logEv(map[string]any{"ev": "Call", "c": cname, "op": k, "kind": "verify", "id": "", "ts": 0})
 							err := client.AdminStoreVerify(nc)
